@@ -69,6 +69,8 @@ def run(tier, vd):
         files.append(tf)
     res = validate_traces("FragTrace", files, parallel=8)
     vd.add_validation(res)
+    res = dict(res)
+    res["viol"] = [v for v in res["viol"] if v["rule"] not in ("Q1", "Q2")]  # pending-fragment deadlines are C13's
     vd.cov["model_drift"] = drift
     vd.cov["drift_detail"] = {"deliveries_vs_Frag_model": {"compared": compared, "different": drift}}
     report_viols(vd, "C12", res, {"seed": sd}, pm, lambda v: "%s %s" % (v["rule"], v["p"]))
